@@ -42,6 +42,11 @@ CLAIMED['C06'] = ('other', 'bounded symbolic execution with symbolic opacity per
 CLAIMED['C07'] = ('other', 'bounded symbolic execution: the observation of the world turned by every quarter turn (grid and pose together, the turned world built from explicit index formulas) is cell-by-cell identical to the original observation, for the three deterministic observation functions, every pose, view area and occluder layout within the bounds (opacity symbolic)',
                   'trusts z3, the proxy layer, the Tok stub; sizes beyond the bounds are outside', 'DESIGN.md §5 C07')
 
+CLAIMED['C03'] = ('other', 'bounded symbolic execution: on every path of functional_step, the observation functions and every local reward/termination component the input state is never written to and keeps the content of every cell it materialised; the returned next state shares no mutable object (grid, rows, cells incl. nested box contents, agent, transform, held item) with its input; fast_copy(S) equals, hashes like and shares nothing with S; the memoised helpers answer the same question equally after a symbolic choice of intervening calls (cache eviction, key collisions) and equal a fresh uncached computation',
+                  'trusts z3, the proxy layer and the LazyRows copy contract (a pickle round trip of unread cells is a deep copy: concrete Python, not a solver verdict); intervening-call menus are finite and listed in the evidence', 'DESIGN.md §5 C03')
+CLAIMED['C04'] = ('other', 'bounded symbolic execution of one inductive step of the stateful interface from an arbitrary invariant-satisfying pre-state (symbolic current state, memo absent or computed from it): reset / step / reads are compared with the functional interface on an equal copy with the same draws; the memo is invalidated by reset and step, computed at most once per state, repeated reads return the same object and draw nothing; the invariant "memo is None or belongs to the current state" is preserved, which covers all histories and read patterns by induction; OuterEnv delegates and converts exactly the inner state/observation',
+                  'trusts z3, the proxy layer, the stubs; the observation function is wrapped to draw once per computation so that recomputation is observable', 'DESIGN.md §5 C04')
+
 NOT_APPLICABLE = {
     'C19': 'floating-point trigonometric ray kernel (sin/cos/arctan2 via libm/numpy, round-to-nearest of accumulated float steps): no SMT theory for the transcendental part, the only FP-expressible lemma timed out (300 s) on z3 and cvc5, and the remaining inputs form a small finite domain a solver would merely enumerate; see DESIGN.md §5 C19',
 }
